@@ -7,7 +7,7 @@ timeout as environment actions; get_pool as a state function.  Data hash of heig
         OfferedAnnounced, OwedBlocked; the pre-fix behaviour (DupValidated = "accept") must violate OwedBlocked.
   ->B:  Gen_PoolTracker (BFS): every transition of the deterministic fragment with the shortest path to its
         source state, replayed on a fresh real tracker (gated store, paused clock), last step compared;
-        thorough: a random 1/8 of the transitions of 2 peers x heights {1,11,12} as well.
+        thorough: a random 1/8 of the transitions of 2 peers x heights {-12,1,11,12} as well.
   <-B:  seeded histories (6 peers x 20 heights) logged step by step, validated by Trace_PoolTracker.
 """
 import json
@@ -20,14 +20,15 @@ ENTRIES = {
         "text": "spec/PoolTracker.tla models the shrex PoolTracker (candidate pools with voters per announced hash, "
                 "validated pools keyed by data hash, subjective head, eviction window 10, header tasks, 120 s "
                 "validation timeout, event queue drained by poll) with header arrival and time as environment "
-                "actions and distinct data hashes per height. TLC checks exhaustively (2 peers, heights {1,2,11} "
-                "around the eviction boundary) that offered peers announced the stored header's hash, that every peer "
+                "actions and distinct data hashes per height. TLC checks exhaustively (2 peers, heights {-12,1,2,11}: "
+                "around the eviction boundary and one height more than the window below the store's initial head; "
+                "notifications may arrive before the first poll has learned that head) that offered peers announced the stored header's hash, that every peer "
                 "that announced another hash for a validated height or announced twice is put into a BlockPeers "
                 "event, that pools more than ten below the head are gone and that get_pool cannot hit its expect(). "
-                "Every transition of the deterministic fragment (2 peers x heights {1,12}) is replayed on the real "
+                "Every transition of the deterministic fragment (2 peers x heights {-12,1,12}) is replayed on the real "
                 "tracker over a gated Store and tokio's paused clock via the shortest path to its source state "
-                "(thorough: also a random eighth of the transitions over heights {1,11,12}); seeded histories over 6 "
-                "peers x 20 heights are validated line by line by Trace_PoolTracker.",
+                "(thorough: also a random eighth of the transitions over heights {-12,1,11,12}); seeded histories over 6 "
+                "peers x 25 heights (20 above, 5 far below the initial head; half of them start with notifications before the first poll) are validated line by line by Trace_PoolTracker.",
         "design_ref": "7 C40",
         "note": "Which of several simultaneously finished header tasks FuturesUnordered yields first is left open by "
                 "the model: generated cases keep at most one task ready, recorded histories are matched against any "
@@ -60,13 +61,13 @@ def run(ck):
     # 1. the design
     actions = ["Announce", "RemovePeer", "Arrive", "Advance", "Poll"]
     if ck.quick:
-        mc = ck.cfg_with("MC_PoolTracker.cfg", {"Heights": "{1, 2, 11}", "MaxEv": 1})
+        mc = ck.cfg_with("MC_PoolTracker.cfg", {"Up": "{1, 2, 11}", "Down": "{12}", "MaxEv": 1})
     else:
-        mc = ck.cfg_with("MC_PoolTracker.cfg", {"Heights": "{1, 2, 11}", "MaxEv": 2})
+        mc = ck.cfg_with("MC_PoolTracker.cfg", {"Up": "{1, 2, 11}", "Down": "{12}", "MaxEv": 2})
     ck.tlc_mc("MC_PoolTracker", mc, required_actions=actions, heap="12g")
-    mc2 = ck.cfg_with("MC_PoolTracker.cfg", {"Heights": "{1, 11}", "MaxEv": 2}, name="MC_PoolTracker_2h.cfg")
+    mc2 = ck.cfg_with("MC_PoolTracker.cfg", {"Up": "{1, 11}", "Down": "{}", "MaxEv": 2}, name="MC_PoolTracker_2h.cfg")
     ck.tlc_mc("MC_PoolTracker", mc2, tag="mc_2h", required_actions=actions)
-    asis = ck.cfg_with("MC_PoolTracker.cfg", {"Heights": "{1, 11}", "DupValidated": '"accept"'}, name="MC_PoolTracker_accept.cfg")
+    asis = ck.cfg_with("MC_PoolTracker.cfg", {"Up": "{1, 11}", "Down": "{}", "DupValidated": '"accept"'}, name="MC_PoolTracker_accept.cfg")
     r = ck.tlc_mc("MC_PoolTracker", asis, tag="mc_accept", expect_violation="OwedBlocked")
     if not r.get("expected_violation_reproduced"):
         raise vf.ToolError("vacuity: accepting a repeated announcement after validation does not violate OwedBlocked")
@@ -76,7 +77,7 @@ def run(ck):
     s = ck.harness(hb, ["replay", "pooltracker", cases], "replay")
     ck.absorb(s, classify)
     if not ck.quick:   # a larger scope, one transition in 8 (TLC RandomElement), same replay
-        gen3 = ck.cfg_with("Gen_PoolTracker.cfg", {"Heights": "{1, 11, 12}", "MaxEv": 1, "Sample": 8}, name="Gen_PoolTracker_3h.cfg")
+        gen3 = ck.cfg_with("Gen_PoolTracker.cfg", {"Up": "{1, 11, 12}", "Down": "{12}", "MaxEv": 1, "Sample": 8}, name="Gen_PoolTracker_3h.cfg")
         cases3, _ = ck.tlc_gen("Gen_PoolTracker", gen3, "cases3.ndjson", tag="gen3", count_stats=False, heap="12g")
         ck.absorb(ck.harness(hb, ["replay", "pooltracker", cases3], "replay3"), classify)
     # 3. impl -> spec
@@ -86,7 +87,7 @@ def run(ck):
     ck.absorb(s2, classify)
     _trace(ck, ck.cfg_with("Trace_PoolTracker.cfg", {}), trace)
     ck.cov["exhaustive"] = True
-    ck.cov["rule"] = ("spec->impl: one case per transition of the deterministic fragment (2 peers x heights {1,12}), "
+    ck.cov["rule"] = ("spec->impl: one case per transition of the deterministic fragment (2 peers x heights {-12,1,12}), "
                       "replayed from the initial state along the shortest path; non-trivial = the step changes what "
                       "the tracker shows (announcement accepted while a head exists, or a poll that returns an event / "
                       "handles a header). Simulated behaviours and recorded histories: non-trivial = polls that return "
